@@ -81,6 +81,11 @@ def strings(rng, n, thorough):
             w = len(ch.encode())
             k, rem = divmod(target, w)
             out.append(ch * k + 'a' * rem)
+    # the protocol allows strings of up to 32767 characters, i.e. up to
+    # 3 * 32767 + 3 bytes of UTF-8: lengths around that limit in characters and
+    # in bytes (a length check applied to the wrong unit shows here)
+    out += ['a' * 32767, 'a' * 32766, '中' * 10922, '中' * 10923, 'я' * 16383,
+            'я' * 16384, 'я' * 20000, 'é' * 32767, '中' * 32767]
     pools = ['abc XYZ', 'éüñ', '€中文', '\U0001F600\U0001F4A9', '\x00\x01\x7f']
     for _ in range(n):
         L = rng.choice((0, 1, 2, 3, 5, 17, 60, 130, 300))
